@@ -81,7 +81,7 @@ impl Check for C12 {
         // capacities (below the shard count) are included; they are used only
         // when no unrelated key is written, so that nothing is evicted.
         let tiny = tape.draw(3) == 0;
-        let cap_of = |t: &mut Tape| -> usize { if tiny { *t.pick(&[1usize, 2, 3, n_eff.saturating_sub(1).max(1), n_eff, 100 * n_eff]) } else { *t.pick(&[100 * n_eff, 50 * n_eff + 7, 1_000_000]) } };
+        let cap_of = |t: &mut Tape| -> usize { if tiny { *t.pick(&[1usize, 2, 3, n_eff.saturating_sub(1).max(1), n_eff, 100 * n_eff]) } else { *t.pick(&[100 * n_eff, 50 * n_eff + 7, 1_000_000usize.max(200 * n_eff)]) } };
         let caps: Vec<usize> = (0..4).map(|_| cap_of(tape)).collect();
         let dirs = vec![DirSpec { path: root.clone(), kind: DirKind::Sharded(n), capacity: 100 * n_eff }];
         let mut w = World::new(fs, &kn, tape, 4, 1, dirs.clone(), WorldCfg::default());
